@@ -333,7 +333,10 @@ def rule_SO(run: Run) -> RuleResult:
             # and nothing follows the first complete success
             succ = [i for i, e in enumerate(evs) if e.op == op and not e.failed and i > 0 and evs[i - 1].op == "validate" and not evs[i - 1].failed]
             if op == "validate":
-                succ = [i for i, e in enumerate(evs) if i > 0 and e.op == "validate" and evs[i - 1].op == "validate" and not e.failed and not evs[i - 1].failed]
+                # validating a member is itself the probe: one successful validate on the member suffices (validated twice
+                # in a row — the probe and then the operation — is the same thing done twice)
+                first = next((i for i, e in enumerate(evs) if e.op == "validate" and not e.failed and (i == len(evs) - 1 or not evs[i + 1].failed)), None)
+                succ = [] if first is None else ([len(evs) - 1] if first >= len(evs) - 2 else [first])
             fallback = op == "explain" and any(c[0].startswith("except EvaluationError") for c in p.conds) and not succ
             if fallback:
                 continue
@@ -1070,17 +1073,68 @@ def rule_ON(run: Run) -> RuleResult:
         for c in astu.calls_in(fn):
             r_ = astu.resolve_in_function(run.repo, m, fn, c.func) if isinstance(c.func, (ast.Name, ast.Attribute)) else None
             if r_ and r_[0] == "external" and r_[1] in ("copy.deepcopy", "copy.copy"):
-                copies.append((q, c.lineno, m.relpath, ast.unparse(c)[:60]))
-    for q, line, rel, txt in copies:
+                copies.append((q, c.lineno, m.relpath, ast.unparse(c)[:60], _may_hold_expressions(run.repo, m, cls, fn, c.args[0] if c.args else None)))
+    for q, line, rel, txt, holds in copies:
         ok = q.endswith("Value.evaluate")
+        if not ok and holds is not True:
+            # plain data (an options dictionary, a value found in it, a cached result) or nothing declared: not what the rule is about
+            res.notes.append(f"{q}: {txt} copies {'plain data' if holds is False else 'an object of undeclared kind'} — not judged")
+            continue
         res.add(f"{q}:deep copy of {txt}", ok, rel, line,
                 "the wrapped plain value is handed out as a copy" if ok else f"{txt}: whatever expressions the copied object holds are cloned — operations on the clones "
                 "name anonymous objects, and a clone of a dataset no longer shares registrations with the original", nec)
-    if not any(q.endswith("Value.evaluate") for q, *_ in copies):
+    if not any(c_[0].endswith("Value.evaluate") for c_ in copies):
         raise AnalysisError("R-ON: Value.evaluate no longer deep-copies its value (anchor vanished)")
     res.count("derived targets", n)
     res.count("classes", len(run.node_classes()))
     return res
+
+
+_EXPRESSION_WORDS = ("Evaluatable", "Dataset", "Overloaded", "Pipeline", "Effect", "Cache", "Interface", "Switch", "Coalesce", "Computation", "Runtime", "Request")
+
+
+def _may_hold_expressions(repo, m, cls, fn, arg) -> Optional[bool]:
+    """Can the copied object be, or hold, an expression of the library?  True / False from the declared type of the argument
+    (a parameter, a field of self, a local assigned from one), None when nothing is declared."""
+    if arg is None:
+        return None
+    amap = astu.single_assign_map(fn)
+    seen = 0
+    while isinstance(arg, ast.Name) and arg.id in amap and seen < 4 and arg.id not in {a.arg for a in fn.args.posonlyargs + fn.args.args + fn.args.kwonlyargs}:
+        arg = amap[arg.id]
+        seen += 1
+    ann = None
+    if isinstance(arg, ast.Name):
+        if arg.id in ("self", "cls") and cls is not None:
+            ci = repo.classes.get(f"{m.name}.{cls.name}")
+            return bool(ci is not None and (ci.is_subclass_of("Evaluatable") or ci.is_subclass_of("Effect") or ci.is_subclass_of("Cache")))
+        for a_ in fn.args.posonlyargs + fn.args.args + fn.args.kwonlyargs + ([fn.args.vararg] if fn.args.vararg else []) + ([fn.args.kwarg] if fn.args.kwarg else []):
+            if a_.arg == arg.id:
+                ann = a_.annotation
+        if ann is None:
+            return None
+    elif isinstance(arg, ast.Attribute) and isinstance(arg.value, ast.Name) and arg.value.id == "self" and cls is not None:
+        ci = repo.classes.get(f"{m.name}.{cls.name}")
+        if ci is not None:
+            for kc in ci.mro():
+                if arg.attr in kc.annotations:
+                    ann = kc.annotations[arg.attr]
+                    break
+        if ann is None:
+            return None
+    elif isinstance(arg, ast.Call):
+        # dict(x) / list(x) / x.get(k) … of something: judged by what it is made from
+        inner = [a for a in arg.args if isinstance(a, (ast.Name, ast.Attribute))]
+        if isinstance(arg.func, ast.Attribute) and isinstance(arg.func.value, (ast.Name, ast.Attribute)):
+            inner.append(arg.func.value)
+        verdicts = [_may_hold_expressions(repo, m, cls, fn, a) for a in inner]
+        if any(v is True for v in verdicts):
+            return True
+        return False if verdicts and all(v is False for v in verdicts) else None
+    else:
+        return None
+    txt = ann.value if isinstance(ann, ast.Constant) and isinstance(ann.value, str) else ast.unparse(ann)
+    return any(w in txt for w in _EXPRESSION_WORDS)
 
 
 def _children_kind(run: Run, cls) -> Dict[str, str]:
@@ -1645,6 +1699,45 @@ def _cm_handlers(repo, m, fn) -> list:
     return out
 
 
+_USER_OPS = {"evaluate", "validate", "keys", "explain", "transform", "run", "fingerprint", "get", "set", "exists", "apply", "bind"}
+
+
+def _runs_user_code(stmts, fn, cls) -> bool:
+    """Can the statements run an operation on an expression or a callable the user supplied?  Calls of x.evaluate/validate/
+    keys/explain/transform/run(...), Cache protocol calls, calls of a parameter or of an attribute of self / of a parameter
+    (``self.func(...)``, ``request.handler(...)``), calls of the result of a call (``f(options)(value)``), and calls of
+    methods of the same class (followed into) count; module-level functions, builtins and methods of plain values do not."""
+    params = {a.arg for a in fn.args.posonlyargs + fn.args.args + fn.args.kwonlyargs}
+    for s_ in stmts:
+        for c in ast.walk(s_):
+            if not isinstance(c, ast.Call):
+                continue
+            f = c.func
+            if isinstance(f, ast.Call):
+                return True
+            if isinstance(f, ast.Name) and f.id in params:
+                return True
+            if isinstance(f, ast.Attribute):
+                if f.attr in _USER_OPS:
+                    base = ast.unparse(f.value)
+                    if f.attr in ("get", "set", "exists") and "cache" not in base.lower():
+                        continue        # dict.get / mapping look-ups on plain data, not the Cache protocol
+                    if f.attr == "keys" and not c.args:
+                        continue        # mapping.keys()
+                    return True
+                if isinstance(f.value, ast.Name) and f.value.id in (params | {"self", "cls"}) and f.attr not in ("__dict__",) and not f.attr.startswith("__") \
+                        and isinstance(f.value, ast.Name) and f.value.id in ("self", "cls") and cls is not None:
+                    # a method of the same class: look into it one level
+                    for st in getattr(cls, "body", []):
+                        if isinstance(st, ast.FunctionDef) and st.name == f.attr:
+                            if _runs_user_code(st.body, st, None):
+                                return True
+                            break
+                    else:
+                        return True         # a callable field of the object
+    return False
+
+
 def rule_CD(run: Run) -> RuleResult:
     res = RuleResult("R-CD")
     repo = run.repo
@@ -1709,11 +1802,22 @@ def rule_CD(run: Run) -> RuleResult:
             if broad:
                 ok = q in broad_ok
                 why = broad_ok.get(q, "broad handler outside the request handler / Value.evaluate")
+                if not ok:
+                    try_node = next((t_ for t_ in ast.walk(fn) if isinstance(t_, ast.Try) and h in t_.handlers), None)
+                    if try_node is not None and not _runs_user_code(try_node.body, fn, cls):
+                        # what it guards is library plumbing only (a copy, a repr, a dictionary probe): no failure of the user's
+                        # expressions, bodies or callbacks can end up here, so nothing of theirs is swallowed
+                        ok = True
+                        why = "guards no operation on an expression and no call of a user-supplied callable"
                 if not ok and _always_raises(h.body) and isinstance(h.body[-1], ast.Raise) and (
                         h.body[-1].exc is None or (h.name and isinstance(h.body[-1].exc, ast.Name) and h.body[-1].exc.id == h.name and h.body[-1].cause is None)) \
                         and not any(isinstance(x, (ast.Return, ast.Break, ast.Continue)) for x in astu.walk_no_nested(h)):
                     ok = True
                     why = "cleans up and re-raises the same exception: nothing is swallowed"
+                if not ok and h.name and _always_raises(h.body) and not any(isinstance(x, (ast.Return, ast.Break, ast.Continue)) for x in astu.walk_no_nested(h)) \
+                        and all(isinstance(x.cause, ast.Name) and x.cause.id == h.name for x in astu.walk_no_nested(h) if isinstance(x, ast.Raise) and x.exc is not None):
+                    ok = True
+                    why = "translates: every way out raises a new error chained `from` the one caught — nothing is swallowed, the cause chain is kept"
                 res.add(f"{q}:except {','.join(types)} (broad)", ok, m.relpath, h.lineno, why, nec)
                 continue
             catches_eval = [t for t in types if exc_is_subclass(repo, "KeyNotFoundError", t) and t.split(".")[-1] != "KeyNotFoundError"]
